@@ -798,16 +798,32 @@ def rft_densities(ck, rft):
         return any(gammasgn((m + 2 - (kk + d) + 2 * L) / 2.) < 0 for kk in range(k) if mu[kk] != 0 and kk + d > 0
                    for L in range((kk + d - 1) // 2 + 1))
 
-    # rho_0 == upper tail probability
-    chk("rho0/gaussian", "Gaussian().density(x, 0) vs norm.sf", rft.Gaussian().density(xs, 0), stats.norm.sf(xs), {})
+    # rho_0 == upper tail probability, from moderate thresholds to far in the tail, compared relatively (no absolute floor)
+    xt = np.concatenate([xs, [7.0, 8.5, 10.0, 12.0, 15.0]])
+
+    def chk_tail(sig, what, got, want, rep, dfd=0.):
+        ck.count((sig, repr(rep)), bucket="rft:density")
+        got, want = np.asarray(got, float), np.asarray(want, float)
+        bad = ~(np.abs(got - want) <= (1e-9 + 4e-15 * float(dfd)) * np.abs(want) + 1e-300)
+        if bad.any():
+            i = int(np.argmax(bad))
+            sg = sig.split("/")
+            feat = "non-finite" if not np.isfinite(got[i]) else ("far-tail" if want[i] < 1e-9 else None)
+            ck.fail("/".join(sg[:1] + ([feat] if feat else []) + sg[1:]), "%s: at threshold %s got %.17g, tail probability %.17g" % (what, xthr[i], got[i], want[i]),
+                    dict(rep, x=float(xthr[i]), got=float(got[i]) if np.isfinite(got[i]) else str(got[i]), expected=float(want[i])))
+
+    xthr = xt
+    chk_tail("rho0/gaussian", "Gaussian().density(x, 0) vs norm.sf", rft.Gaussian().density(xt, 0), stats.norm.sf(xt), {})
     for m in dfds:
-        chk("rho0/t", "TStat(dfd=%d).density(x, 0) vs t.sf" % m, rft.TStat(dfd=m).density(xs, 0), stats.t.sf(xs, m), {"dfd": m}, dfd=m)
+        chk_tail("rho0/t", "TStat(dfd=%d).density(x, 0) vs t.sf" % m, rft.TStat(dfd=m).density(xt, 0), stats.t.sf(xt, m), {"dfd": m}, dfd=m)
     for k in dfns:
-        chk("rho0/chi2", "ChiSquared(dfn=%d).density(x, 0) vs chi2.sf" % k, rft.ChiSquared(dfn=k).density(xs, 0), stats.chi2.sf(xs, k), {"dfn": k})
+        xthr = xt ** 2
+        chk_tail("rho0/chi2", "ChiSquared(dfn=%d).density(x, 0) vs chi2.sf" % k, rft.ChiSquared(dfn=k).density(xthr, 0), stats.chi2.sf(xthr, k), {"dfn": k})
         for m in dfds:
-            chk("rho0/F/%s" % ("negative-gamma-in-Q" if neg_gamma(k, m, 0) else "other"),
-                "FStat(dfn=%d, dfd=%d).density(x, 0) vs f.sf" % (k, m), rft.FStat(dfn=k, dfd=m).density(xs, 0),
-                stats.f.sf(xs, k, m), {"dfn": k, "dfd": m}, dfd=m)
+            xthr = xt ** 2 / k
+            chk_tail("rho0/F/%s" % ("negative-gamma-in-Q" if neg_gamma(k, m, 0) else "other"),
+                     "FStat(dfn=%d, dfd=%d).density(x, 0) vs f.sf" % (k, m), rft.FStat(dfn=k, dfd=m).density(xthr, 0),
+                     stats.f.sf(xthr, k, m), {"dfn": k, "dfd": m}, dfd=m)
     # Gaussian: (2 pi)^-(d+1)/2 He_{d-1}(x) exp(-x^2/2); He by the three-term recurrence (independent of hermitenorm)
     def He(n, x):
         a, b = np.ones_like(x), x
@@ -987,9 +1003,152 @@ def rft_repeat(ck, rft):
                 F("density(x, 0) = %s but o(x) = %s" % (D0.tolist(), A[0].tolist()), "density0-vs-call")
             if tail is not None:
                 tv = np.asarray(tail(x1), float)
-                if not np.all(np.abs(dens[0] - tv) <= 1e-8 * np.abs(tv) + 1e-13):
+                # a tail probability is compared RELATIVELY (thresholds reach far into the tail; an absolute floor would hide 1 - cdf)
+                if not np.all(np.abs(dens[0] - tv) <= 1e-8 * np.abs(tv) + 1e-300):
                     F("rho_0 = %s, upper tail probability = %s" % (dens[0].tolist(), tv.tolist()), "tail")
     ck.section("rft-repeat", objects=n_obj, calls_per_object=13)
+
+
+# ====================================================================== section: rft reference model
+def ref_sphere(n):
+    """Lipschitz-Killing curvatures L_0..L_{n-1} of the unit sphere S^{n-1} in R^n (Adler & Taylor 2007, ch. 6):
+    L_j = 2 C(n-1, j) s_n / s_{n-j} when n-1-j is even, else 0, with s_n = 2 pi^(n/2) / Gamma(n/2)."""
+    s = lambda q: 2 * math.pi ** (q / 2.) / math.gamma(q / 2.)
+    return [2 * math.comb(n - 1, j) * s(n) / s(n - j) if (n - 1 - j) % 2 == 0 else 0.0 for j in range(n)]
+
+
+def ref_conv(a, b):
+    out = [0.0] * (len(a) + len(b) - 1)
+    for i, u in enumerate(a):
+        for j, v in enumerate(b):
+            out[i + j] += u * v
+    return out
+
+
+def ref_Q(j, m):
+    """coefficients (highest first) of Q_j: He_{j-1}; for finite m the coefficient of x^(j-1-2L) is multiplied by
+    Gamma((m+1)/2) / Gamma((m+2-j+2L)/2) / (m/2)^((j-1-2L)/2)  (Worsley 1994)."""
+    from scipy.special import gammaln, gammasgn
+    a, b = [1], [1, 0]                                    # He_0, He_1 (highest first, exact integers)
+    if j - 1 == 0:
+        c = a
+    else:
+        for r in range(1, j - 1):
+            nxt = b + [0]
+            pad = [0] * (len(nxt) - len(a)) + a
+            a, b = b, [u - r * v for u, v in zip(nxt, pad)]
+        c = b
+    c = [float(v) for v in c]
+    if np.isfinite(m):
+        for L in range((j - 1) // 2 + 1):
+            arg = (m + 2 - j + 2 * L) / 2.
+            lg = gammaln(arg)
+            f = 0.0 if not np.isfinite(lg) else float(gammasgn(arg) * np.exp(gammaln((m + 1) / 2.) - lg - 0.5 * (j - 1 - 2 * L) * np.log(m / 2.)))
+            c[2 * L] *= f
+    return c
+
+
+def ref_cone(x, mu, dfd, region):
+    """Independent functional model of ECcone.__call__: expected EC of the cone with curvatures `mu` over the (already
+    multiplied) region `region` at thresholds x.  Returns (value, scale) where scale = sum of |terms| (conditioning)."""
+    from scipy import stats
+    x = np.asarray(x, float)
+    val = np.zeros_like(x)
+    scale = np.zeros_like(x)
+    if np.isfinite(dfd):
+        lbase = -(dfd - 1) / 2. * np.log1p(x ** 2 / dfd)
+    else:
+        lbase = -x ** 2 / 2.
+    for d, rd in enumerate(region):
+        if rd == 0:
+            continue
+        for j, mj in enumerate(mu):
+            if mj == 0 or j + d == 0:
+                continue
+            q = ref_Q(j + d, dfd)
+            pv = np.zeros_like(x)
+            pa = np.zeros_like(x)
+            for cf in q:
+                pv = pv * x + cf
+                pa = pa * np.abs(x) + abs(cf)
+            lw = lbase - (j / 2. * np.log1p(x ** 2 / dfd) if np.isfinite(dfd) else 0.0)
+            w = rd * mj * (2 * np.pi) ** (-(j + d + 1) / 2.) * np.exp(lw)
+            val += w * pv
+            scale += np.abs(w) * pa
+    if region[0] * mu[0] != 0:
+        P = stats.t.sf(x, dfd) if np.isfinite(dfd) else stats.norm.sf(x)
+        val += P * region[0] * mu[0]
+        scale += np.abs(P * region[0] * mu[0])
+    return val, scale
+
+
+def rft_reference(ck, rft):
+    """Every statistic class against the independent functional model, all orders 0..4 and explicit search regions, thresholds
+    from moderate to far in the tail (pure relative comparison, scaled by the conditioning of the sum)."""
+    inf = np.inf
+    xg = np.array([0.3, 1.0, 2.2, 3.7, 5.0, 6.5, 8.5, 11.0])            # thresholds on the Gaussian / t scale
+    specs = []       # (class name, params, constructor, [(sign/weight, mu, argument transform)], product)
+    specs.append(("Gaussian", {}, lambda **kw: rft.Gaussian(**kw), [(1.0, [1.0], lambda x: x)], [1.0], xg))
+    dfd_list = [5, 12, 40, 343, 1000, inf] if not ck.thorough() else [3, 5, 7, 12, 40, 100, 343, 1000, 1e5, inf]
+    dfn_list = [2, 3, 5] if not ck.thorough() else [1, 2, 3, 4, 5, 7]
+    for v in dfd_list:
+        specs.append(("TStat", {"dfd": v}, (lambda v: lambda **kw: rft.TStat(dfd=v, **kw))(v), [(1.0, [1.0], lambda x: x)], [1.0], xg))
+        for k in dfn_list:
+            sq = xg ** 2
+            specs.append(("FStat", {"dfn": k, "dfd": v}, (lambda k, v: lambda **kw: rft.FStat(dfn=k, dfd=v, **kw))(k, v),
+                          [(1.0, ref_sphere(k), (lambda k: lambda x: np.sqrt(x * k))(k))], [1.0], sq / k))
+            specs.append(("Hotelling", {"k": k, "dfd": v}, (lambda k, v: lambda **kw: rft.Hotelling(k=k, dfd=v, **kw))(k, v),
+                          [(1.0, [1.0], np.sqrt)], ref_sphere(k), sq))
+            specs.append(("Roy", {"dfn": k, "dfd": v, "k": 3}, (lambda k, v: lambda **kw: rft.Roy(dfn=k, dfd=v, k=3, **kw))(k, v),
+                          [(1.0, ref_sphere(k), (lambda k: lambda x: np.sqrt(x * k))(k))], ref_sphere(3), sq / k))
+            if k >= 2:
+                # Worsley & Taylor (2005): half the difference of the F fields with dfn and dfn - 1 numerator df
+                specs.append(("OneSidedF", {"dfn": k, "dfd": v}, (lambda k, v: lambda **kw: rft.OneSidedF(k, dfd=v, **kw))(k, v),
+                              [(0.5, ref_sphere(k), (lambda k: lambda x: np.sqrt(x * k))(k)),
+                               (-0.5, ref_sphere(k - 1), (lambda k: lambda x: np.sqrt(x * (k - 1)))(k))], [1.0], sq / k))
+    for k in (1, 2, 3, 5):
+        specs.append(("ChiSquared", {"dfn": k}, (lambda k: lambda **kw: rft.ChiSquared(dfn=k, **kw))(k), [(1.0, ref_sphere(k), np.sqrt)], [1.0], xg ** 2))
+    for dims in ([2], [4], [2, 3], [2, 2, 4]):
+        prod = [1.0]
+        for dd in dims:
+            prod = ref_conv(prod, ref_sphere(dd))
+        prod = [p / 2. ** (len(dims) - 1) for p in prod]
+        specs.append(("MultilinearForm", {"dims": dims}, (lambda dims: lambda **kw: rft.MultilinearForm(*dims, **kw))(dims), [(1.0, [1.0], lambda x: x)], prod, xg))
+    n = 0
+    for cname, params, mk, parts, product, xx in specs:
+        dfd = params.get("dfd", inf)
+        regions = [("density-%d" % d, [0.0] * d + [1.0]) for d in range(5)] + [("search", [1.0, 4.0, 6.0, 4.0])]
+        o = mk()                                                    # ONE object for all orders (as a user would)
+        for rname, srch in regions:
+            region = ref_conv(srch, product)
+            want = np.zeros_like(xx)
+            scale = np.zeros_like(xx)
+            for wgt, mu, tr in parts:
+                vv, ss = ref_cone(tr(xx), mu, dfd, region)
+                want += wgt * vv
+                scale += abs(wgt) * ss
+            ck.count(("ref", cname, repr(params), rname), bucket="rft:reference")
+            n += 1
+            rep = {"class": cname, "params": params, "search": srch, "x": xx.tolist()}
+            try:
+                got = np.asarray(o(xx, search=srch), float)
+                got_fresh = np.asarray(mk()(xx, search=srch), float)
+            except Exception as e:  # noqa
+                ck.fail("rft-reference/raises/%s" % cname, "%s(%s)(x, search=%s) raised %s: %s" % (cname, params, srch, type(e).__name__, e), rep)
+                continue
+            tol = 1e-9 + 4e-15 * (dfd if np.isfinite(dfd) else 0.)
+            for tag, g in (("", got), ("fresh-object ", got_fresh)):
+                bad = ~(np.abs(g - want) <= tol * scale + 1e-300)
+                if bad.any():
+                    i = int(np.argmax(bad))
+                    feat = "far-tail" if abs(float(want[i])) < 1e-8 * (1 + abs(float(want[0]))) else "value"
+                    ck.fail("rft-reference/%s/%s" % (feat, cname), "%s(%s) %s(x=%s, search=%s) = %.17g; independent model of the EC formula gives %.17g "
+                            "(sum of |terms| %.3g)" % (cname, params, tag, xx[i], srch, g[i], want[i], scale[i]),
+                            dict(rep, x_bad=float(xx[i]), got=float(g[i]), expected=float(want[i])))
+                    break
+    ck.trust.append("rft reference model (harness/props/c15.py ref_cone/ref_Q/ref_sphere): an independent functional evaluation of the EC formula "
+                    "sum_d region[d] (2 pi)^-(d+1)/2 sum_j mu[j] (2 pi)^-j/2 Q_{j+d}(x) base(x) + tail; scipy gammaln/gammasgn, stats.norm/t.sf are oracles")
+    ck.section("rft-reference", comparisons=n, thresholds=xg.tolist())
 
 
 def run(ck):
@@ -1012,3 +1171,4 @@ def run(ck):
     rft_algebra(ck, rft)
     rft_densities(ck, rft)
     rft_repeat(ck, rft)
+    rft_reference(ck, rft)
